@@ -1,23 +1,68 @@
 package main
 
 import (
-	"encoding/binary"
 	"fmt"
+	"os"
+	"strconv"
 
-	"wa-lang.org/wa/verifbridge/mallocb"
+	"verif/harness/tape"
+	"verif/harness/wagen"
+	"wa-lang.org/wa/verifbridge/wab"
 )
 
+type host struct{ mallocs, frees int }
+
+func (h *host) PreMalloc(mem []byte, size uint32) uint32     { h.mallocs++; return 0 }
+func (h *host) PostMalloc(mem []byte, ptr, size uint32)      {}
+func (h *host) PreFree(mem []byte, ptr uint32) uint32        { h.frees++; return 1 }
+func (h *host) PostHeapAlloc(mem []byte, ptr, nbytes uint32) {}
+
 func main() {
-	cfg := mallocb.Config{MemoryPages: 1, MemoryPagesMax: 10, StackPtr: 32768, HeapBase: 40960, HeapLFixedCap: 100}
-	h, err := mallocb.New(0, cfg, nil)
-	if err != nil {
-		panic(err)
-	}
-	p, err := h.Malloc(65512)
-	fmt.Println(p, err, h.GrowCalls, h.GrowOK, h.GrowFailed)
-	m := h.Mem()
-	fmt.Println(len(m), h.Global("__heap_ptr"), h.Global("__heap_top"))
-	for a := 40960; a < 41032; a += 4 {
-		fmt.Println(a, int32(binary.LittleEndian.Uint32(m[a:])))
+	from, _ := strconv.Atoi(os.Args[1])
+	to, _ := strconv.Atoi(os.Args[2])
+	for i := from; i < to; i++ {
+		d := wagen.Generate(tape.NewGen(7, uint64(i)))
+		os.WriteFile("/tmp/w/gen.wa", []byte(d.Source), 0o644)
+		wat, err := wab.BuildWat("gen.wa", d.Source)
+		if err != nil {
+			fmt.Println(i, "BUILD ERR", err)
+			os.Exit(1)
+		}
+		wat2, err := wab.Instrument(wat)
+		if err != nil {
+			fmt.Println(i, "INSTR ERR", err)
+			os.Exit(1)
+		}
+		wasm, err := wab.Wat2Wasm(wat2)
+		if err != nil {
+			fmt.Println(i, "WAT2WASM ERR", err)
+			os.Exit(1)
+		}
+		c, err := wab.Compile(wasm)
+		if err != nil {
+			fmt.Println(i, "COMPILE ERR", err)
+			os.Exit(1)
+		}
+		h := &host{}
+		in, err := c.Instantiate(h)
+		if err != nil {
+			fmt.Println(i, "INST ERR", err)
+			os.Exit(1)
+		}
+		in.Call("reset")
+		t := tape.NewGen(9, uint64(i))
+		for j := 0; j < 3000; j++ {
+			op := t.Draw(d.NOps)
+			a, b, cc := t.Draw(d.Slots), t.Draw(64), t.Draw(64)
+			_, err := in.Call("step", uint64(op), uint64(a), uint64(b), uint64(cc))
+			if err != nil {
+				fmt.Printf("%d step %d op=%d (%s) a=%d b=%d c=%d: %v\n", i, j, op, d.OpDesc[op], a, b, cc, err)
+				os.Exit(1)
+			}
+		}
+		in.Call("reset")
+		fmt.Println(i, "ok ops", d.NOps, "kinds", len(d.Kinds), "mallocs", h.mallocs, "frees", h.frees)
+		in.Close()
+		c.Close()
 	}
 }
